@@ -23,6 +23,8 @@ CLAIMED = {
          "Exploration: tens of thousands of definitions per run, every documented defect class and pairs of them (found F17, F18)."),
  'C11': ("twin definition: printed description vs read_grammar of the denoted grammar, compared on definition result and parse outcomes; mutated texts must fail cleanly with a line number inside the text", "6.C11",
          "Exploration over lexical variation of the documented syntax (found F05, F06, F07, F08, F10)."),
+ 'C13': ("tracking tree allocator as model of the caller's heap: per-parse live-block sets, reachability walk, re-walk after yaep_free_grammar, yaep_free_tree accounting, terminal-callback count, library leak accounting through the redirected malloc", "6.C13",
+         "Exploration with 1-3 live trees per object, cost pruning, recovery, three allocator modes (found F15, F25, F29)."),
  'C08': ("reference minimum over all simple recoveries computed on reference Earley sets", "6.C08", "Exploration; inequality only, as the property states; meaningful together with C07's accounting clause."),
 }
 m={
